@@ -14,6 +14,7 @@ import sys
 
 REPO = os.environ.get("VERIF_REPO", "/repo")
 OUT = os.path.join(os.path.dirname(os.path.abspath(__file__)), "..", "coq", "Generated", "Consts.v")
+OUT_GLUE = os.path.join(os.path.dirname(os.path.abspath(__file__)), "..", "coq", "Generated", "Glue.v")
 
 
 class TranslateError(Exception):
@@ -142,6 +143,10 @@ def gather():
     c["ADAPTIVE_DEFAULT_CLEANUP_INTERVAL_SECS"] = const_decl(ada, "DEFAULT_CLEANUP_INTERVAL_SECS", "adaptive_cleanup.rs")
     c["ADAPTIVE_MAX_OPERATIONS_BEFORE_CLEANUP"] = const_decl(ada, "MAX_OPERATIONS_BEFORE_CLEANUP", "adaptive_cleanup.rs")
 
+    http = strip_comments(read("throttlecrab-server/src/transport/http.rs"))
+    c["HTTP_DEFAULT_QUANTITY"] = eval_const_expr(
+        one_match(http, r"quantity\s*:\s*req\.quantity\.unwrap_or\(\s*([0-9_]+)\s*\)", "http.rs default quantity"), "http.rs default quantity")
+
     proto = read("throttlecrab-server/proto/throttlecrab.proto")
     resp_msg = one_match(proto, r"message\s+ThrottleResponse\s*\{([^}]*)\}", "proto ThrottleResponse")
     req_msg = one_match(proto, r"message\s+ThrottleRequest\s*\{([^}]*)\}", "proto ThrottleRequest")
@@ -153,6 +158,124 @@ def gather():
         if not isinstance(v, int):
             raise TranslateError(f"{k}: non-integer value {v!r}")
     return c
+
+
+# ----------------------------------------------------------------------------- transport glue (C12)
+
+def block_after(src, start_pat, what, open_ch="{", close_ch="}"):
+    """Text between the bracket that ends the unique match of start_pat and its matching close."""
+    ms = list(re.finditer(start_pat, src))
+    if len(ms) != 1:
+        raise TranslateError(f"{what}: expected exactly one match of /{start_pat}/, found {len(ms)}")
+    i = ms[0].end()
+    if src[i - 1] != open_ch:
+        raise TranslateError(f"{what}: pattern must end at '{open_ch}'")
+    depth = 1
+    j = i
+    while j < len(src) and depth:
+        ch = src[j]
+        if ch in "{[(":
+            depth += 1
+        elif ch in "}])":
+            depth -= 1
+        j += 1
+    if depth:
+        raise TranslateError(f"{what}: unbalanced brackets")
+    return src[i:j - 1]
+
+
+def split_top(text):
+    parts, depth, cur = [], 0, ""
+    for ch in text:
+        if ch in "{[(":
+            depth += 1
+        elif ch in "}])":
+            depth -= 1
+        if ch == "," and depth == 0:
+            parts.append(cur)
+            cur = ""
+        else:
+            cur += ch
+    if cur.strip():
+        parts.append(cur)
+    return [re.sub(r"\s+", "", p) for p in parts if p.strip()]
+
+
+def struct_literal(src, start_pat, what):
+    """[(field, expression-without-whitespace)] of a Rust struct literal; `f` shorthand gives (f, f)."""
+    out = []
+    for part in split_top(block_after(src, start_pat, what)):
+        m = re.fullmatch(r"([A-Za-z_][A-Za-z0-9_]*)(?::(.*))?", part, re.S)
+        if not m:
+            raise TranslateError(f"{what}: cannot read struct-literal field {part!r}")
+        out.append((m.group(1), m.group(2) if m.group(2) is not None else m.group(1)))
+    return out
+
+
+def struct_decl(src, name, what):
+    """[(field, type)] of `pub struct name { pub f: T, ... }`; refuses serde attributes that rename/skip fields."""
+    body = block_after(src, r"pub\s+struct\s+" + name + r"\s*\{", what)
+    if re.search(r"#\s*\[\s*serde", body):
+        raise TranslateError(f"{what}: serde field attributes present; the JSON model does not cover them")
+    body = re.sub(r"#\s*\[[^\]]*\]", "", body)
+    out = []
+    for part in split_top(body):
+        m = re.fullmatch(r"(?:pub)?([A-Za-z_][A-Za-z0-9_]*):(.*)", re.sub(r"^pub\s*", "pub", part), re.S)
+        if not m:
+            raise TranslateError(f"{what}: cannot read struct field {part!r}")
+        out.append((m.group(1), m.group(2)))
+    return out
+
+
+def gather_glue():
+    g = {}
+    types = strip_comments(read("throttlecrab-server/src/types.rs"))
+    if re.search(r"#\s*\[\s*serde\s*\(", types):
+        raise TranslateError("types.rs: serde container/field attributes present; the JSON model does not cover them")
+    g["TYPES_RESPONSE_FIELDS"] = struct_decl(types, "ThrottleResponse", "types.rs ThrottleResponse")
+    frm = block_after(types, r"impl\s+From<\(bool,\s*RateLimitResult\)>\s+for\s+ThrottleResponse\s*\{", "types.rs From impl")
+    g["TYPES_FROM"] = struct_literal(frm, r"ThrottleResponse\s*\{", "types.rs From literal")
+    http = strip_comments(read("throttlecrab-server/src/transport/http.rs"))
+    g["HTTP_REQUEST_FIELDS"] = struct_decl(http, "HttpThrottleRequest", "http.rs HttpThrottleRequest")
+    hreq = struct_literal(http, r"let\s+internal_req\s*=\s*InternalRequest\s*\{", "http.rs internal request")
+    g["HTTP_REQ"] = [(f, re.sub(r"unwrap_or\([0-9_]+\)", "unwrap_or(#)", e)) for f, e in hreq]
+    grpc = strip_comments(read("throttlecrab-server/src/transport/grpc.rs"))
+    grpc = grpc.split("#[cfg(test)]")[0]
+    g["GRPC_REQ"] = struct_literal(grpc, r"let\s+actor_request\s*=\s*ActorRequest\s*\{", "grpc.rs actor request")
+    g["GRPC_RESP"] = struct_literal(grpc, r"let\s+response\s*=\s*ThrottleResponse\s*\{", "grpc.rs response")
+    rmod = strip_comments(read("throttlecrab-server/src/transport/redis/mod.rs"))
+    ht = block_after(rmod, r"async\s+fn\s+handle_throttle\s*\([^)]*\)\s*->\s*RespValue\s*\{", "redis/mod.rs handle_throttle")
+    arr = block_after(ht, r"RespValue::Array\s*\(\s*vec!\s*\[", "redis/mod.rs reply array", "[", "]")
+    g["RESP_REPLY"] = [(str(i), e) for i, e in enumerate(split_top(arr))]
+    g["RESP_REQ"] = struct_literal(ht, r"let\s+request\s*=\s*ThrottleRequest\s*\{", "redis/mod.rs request")
+    m = re.findall(r"if\s+args\.len\(\)\s*<\s*([0-9]+)\s*\|\|\s*args\.len\(\)\s*>\s*([0-9]+)", ht)
+    if len(m) != 1:
+        raise TranslateError("redis/mod.rs: arity check of handle_throttle not found")
+    g["RESP_ARITY"] = [("min", m[0][0]), ("max", m[0][1])]
+    q = re.findall(r"let\s+quantity\s*=\s*if\s+args\.len\(\)\s*==\s*([0-9]+)\s*\{.*?\}\s*else\s*\{\s*([0-9]+)\s*\}\s*;", ht, re.S)
+    if len(q) != 1:
+        raise TranslateError("redis/mod.rs: default quantity of handle_throttle not found")
+    g["RESP_QUANTITY"] = [("with_quantity_len", q[0][0]), ("default", q[0][1])]
+    return g
+
+
+def coq_string(s):
+    if any(ord(ch) < 32 or ord(ch) > 126 for ch in s):
+        raise TranslateError(f"non-printable character in glue text {s!r}")
+    return '"' + s.replace('"', '""') + '"'
+
+
+def render_glue(g):
+    lines = ["(* GENERATED by tools/extract_consts.py from the transport sources of /repo on every run: the field",
+             "   mappings between the protocol structs and the actor's request/response, as (target, source expression)",
+             "   pairs with whitespace removed.  Server/Transport.v interprets them; an expression it does not know",
+             "   makes the model undefined and the C12 theorems fail.  Do not edit. *)",
+             "From Coq Require Import String List.", "Import ListNotations.", "Open Scope string_scope.", ""]
+    for k in sorted(g):
+        items = "; ".join("(%s, %s)" % (coq_string(a), coq_string(b)) for a, b in g[k])
+        lines.append(f"Definition {k} : list (string * string) := [{items}].")
+    lines.append("")
+    return "\n".join(lines)
 
 
 def render(c):
@@ -172,16 +295,21 @@ def main():
     except TranslateError as e:
         print(f"extract_consts: TRANSLATION FAILED: {e}", file=sys.stderr)
         return 2
-    text = render(c)
-    out = os.path.normpath(OUT)
-    old = None
-    if os.path.exists(out):
-        with open(out) as f:
-            old = f.read()
-    if old != text:
-        os.makedirs(os.path.dirname(out), exist_ok=True)
-        with open(out, "w") as f:
-            f.write(text)
+    try:
+        glue_text = render_glue(gather_glue())
+    except TranslateError as e:
+        print(f"extract_consts: TRANSLATION FAILED (transport glue): {e}", file=sys.stderr)
+        return 2
+    for path, text in ((OUT, render(c)), (OUT_GLUE, glue_text)):
+        out = os.path.normpath(path)
+        old = None
+        if os.path.exists(out):
+            with open(out) as f:
+                old = f.read()
+        if old != text:
+            os.makedirs(os.path.dirname(out), exist_ok=True)
+            with open(out, "w") as f:
+                f.write(text)
     if "--print" in sys.argv:
         import json
         print(json.dumps(c, indent=1, sort_keys=True))
